@@ -43,7 +43,7 @@ def generate(streams, tier):
             op["pseudo_scalar"] = rw.choice([1, 2, 0.5, 3.25])
             op["pseudo_rowvals"] = [rw.choice([0.5, 1.0, 2.0, 4.0]) for _ in range(4)]
         if k == "fit_update":
-            op["n_prev"] = rw.choice([None, 1, 10, 37])
+            op["n_prev"] = rw.choice([None, 1, 10, 37, 0, 0.0, 2.5])   # 0: the previous parameters carry no weight at all
             op["first"] = rw.choice(["world", "mle"])
             op["new_rows"] = W.gen_rows(rd, world, rd.choice([1, 3, 10, 25]))
         if k in ("em", "em_nolatent"):
@@ -369,6 +369,13 @@ def _fit_update(case, ctx, op):
             prev[v] = normalise_over(cnt, scope, v)
         n_prev_default = len(new_rows)
     n_prev = op["n_prev"] if op["n_prev"] is not None else n_prev_default
+    if n_prev == 0:
+        # without any prior weight the update is plain counting, defined where every parent configuration occurs in the new rows
+        for v in range(n):
+            scope, cnt = ref_counts(world, new_rows, [1.0] * len(new_rows), v)
+            if (np.asarray(cnt).sum(axis=scope.index(v)) == 0).any():
+                return
+        ctx.probe("fit_update_zero_prior_weight")
     df = make_frame(world, names, new_rows)
     ctx.event("fit_update", op["first"], op["n_prev"], op["n_jobs"], len(new_rows))
     try:
